@@ -160,15 +160,67 @@ func (c *Ctx) role0(name string) *ssa.Function {
 			}
 		}
 		return best
-	case "previous":
-		for _, cal := range c.staticCallees(c.method("Group", c.renderName())) {
-			if cal.Signature.Recv() != nil && cal.Signature.Params().Len() == 1 && cal.Signature.Results().Len() == 1 &&
-				isCodeType(c, cal.Signature.Params().At(0).Type()) && isCodeType(c, cal.Signature.Results().At(0).Type()) {
-				return cal
+	case "renderItems":
+		for _, f := range c.allFuncs(c.Jen) {
+			if f.Parent() != nil || f.Signature.Recv() == nil || types.TypeString(f.Signature.Recv().Type(), shortQual) != "*jen.Group" {
+				continue
+			}
+			if f.Signature.Results().Len() == 2 && c.writerParam(f) != nil && len(c.FA(f).invokes(c.renderName())) > 0 {
+				return f
 			}
 		}
+		// the render call may sit in a helper of the list renderer
+		for _, f := range c.allFuncs(c.Jen) {
+			if f.Parent() != nil || f.Signature.Recv() == nil || types.TypeString(f.Signature.Recv().Type(), shortQual) != "*jen.Group" {
+				continue
+			}
+			if f.Signature.Results().Len() == 2 && c.writerParam(f) != nil && f != c.method("Group", c.renderName()) {
+				if b, ok := f.Signature.Results().At(0).Type().Underlying().(*types.Basic); ok && b.Kind() == types.Bool {
+					return f
+				}
+			}
+		}
+	case "isNullItems":
+		if gf := c.method("Group", c.nullName()); gf != nil {
+			for _, cal := range c.staticCallees(gf) {
+				if sigBool(cal) && (len(c.FA(cal).invokes(c.nullName())) > 0 || len(c.staticCallees(cal)) > 0) && cal.Signature.Recv() != nil {
+					return cal
+				}
+			}
+		}
+	case "previous":
+		var search func(f *ssa.Function, depth int) *ssa.Function
+		search = func(f *ssa.Function, depth int) *ssa.Function {
+			if f == nil || depth > 2 {
+				return nil
+			}
+			for _, cal := range c.staticCallees(f) {
+				if cal.Signature.Recv() != nil && cal.Signature.Params().Len() == 1 && cal.Signature.Results().Len() == 1 &&
+					isCodeType(c, cal.Signature.Params().At(0).Type()) && isCodeType(c, cal.Signature.Results().At(0).Type()) {
+					return cal
+				}
+			}
+			for _, cal := range c.staticCallees(f) {
+				if cal == c.role("renderItems") {
+					continue
+				}
+				if r := search(cal, depth+1); r != nil {
+					return r
+				}
+			}
+			return nil
+		}
+		return search(c.method("Group", c.renderName()), 0)
 	}
 	return nil
 }
 
 func isExportedName(n string) bool { return len(n) > 0 && n[0] >= 'A' && n[0] <= 'Z' }
+
+func sigBool(f *ssa.Function) bool {
+	if f.Signature.Results().Len() != 1 {
+		return false
+	}
+	b, ok := f.Signature.Results().At(0).Type().Underlying().(*types.Basic)
+	return ok && b.Kind() == types.Bool
+}
